@@ -56,6 +56,12 @@ def cases(tier, seed):
             c["route"] = "json"
             c["rho_interior"] = False  # option plumbing is judged on configurations free of the interior-rho mechanism
         out.append(c)
+    # fast epidemics over a long time (rate x time in the hundreds and thousands: e.g. an infectious period of days and an origin years
+    # back): exp(A t) no longer fits a double, its logarithm does.  Single epoch, against the 40-digit closed form.
+    for i in range({"quick": 60, "thorough": 600}[tier]):
+        out.append({"sub": "single", "n": int(rng.choice([2, 4, 8, 20])), "sampling": str(rng.choice(["serial", "contemp", "mixed", "contemp-psi"])), "m": 1, "boundaries": "default",
+                    "rho_interior": False, "r": "none", "survival": bool(i % 2), "route": str(rng.choice(["json", "direct"])), "seed": int(rng.integers(2**31)),
+                    "fast": float([20.0, 60.0, 200.0, 600.0][i % 4])})
     return out
 
 
@@ -112,7 +118,7 @@ def build(case):
     m = len(b) - 1
     lam, mu, psi, rr = [], [], [], []
     R = gm.loguniform(rng, 0.5, 4.0, m)
-    delta = gm.loguniform(rng, 0.2, 3.0, m)
+    delta = gm.loguniform(rng, 0.2, 3.0, m) * case.get("fast", 1.0)
     s = rng.uniform(0.05, 0.9, m)
     if case["sampling"] == "contemp" and rng.random() < 0.5:
         s = np.zeros(m)
@@ -267,6 +273,29 @@ def _run_case(case):
             return scalar(dic["bdsk"](), "C09:not-a-number", "BDSKModel()")
         return scalar(lib_direct(d, survival), "C09:not-a-number", "log_prob")
 
+    if case.get("fast"):
+        lam, mu, psi = rates(d)
+        cf = bd.single_epoch_log_density(d["tip_heights"], d["internal"], d["origin"], lam[0], mu[0], psi[0], d["rho"][0], None, surv)
+        A = math.sqrt((lam[0] - mu[0] - psi[0]) ** 2 + 4 * lam[0] * psi[0])
+        C["fast_cases"] = 1
+        if A * d["origin"] > 355:
+            C["fast_cases_beyond_exp_range"] = 1
+        x = lib_value()
+        C["closed_form_comparisons"] += 1
+        if not np.isfinite(x) or abs(x - cf) > 1e-9 * max(1.0, abs(cf)):
+            V.append(tt.viol("C09:single-epoch:large-rate-times-time:%s" % ("not-finite" if not np.isfinite(x) else "inaccurate"),
+                             "single-epoch skyline %.14g, closed form (40 digits) %.14g; A*origin = %.0f (n=%d, %s, route %s)" % (x, cf, A * d["origin"], n, feat, case["route"]), **detail))
+        if not (all(t == 0 for t in d["tip_heights"]) and d["rho"][0] == 0):
+            import torch
+            from torchtree.evolution.birth_death import BirthDeath
+
+            T = lambda v: torch.tensor(v, dtype=torch.float64)
+            y = float(BirthDeath(T([lam[0]]), T([mu[0]]), T([psi[0]]), T([d["rho"][0]]), T([d["origin"]]), survival=surv).log_prob(T(d["tip_heights"] + sorted(d["internal"]))).reshape(-1)[0])
+            C["closed_form_comparisons"] += 1
+            if not np.isfinite(y) or abs(y - cf) > 1e-9 * max(1.0, abs(cf)):
+                V.append(tt.viol("C09:constant-model:large-rate-times-time:%s" % ("not-finite" if not np.isfinite(y) else "inaccurate"),
+                                 "constant birth-death model %.14g, closed form (40 digits) %.14g; A*origin = %.0f (n=%d, %s)" % (y, cf, A * d["origin"], n, feat), **detail))
+        return {"violations": V, "counters": C, "fingerprint": "fast|%d" % case["seed"], "sample": None}
     if case["sub"] in ("ode", "single"):
         ref = oracle(d, surv)
         if d["m"] == 1 and d["rho_h"] is None:
